@@ -244,51 +244,62 @@ def coil_env(coil):
 
 
 def exec_fuzz(job):
+    """Stimulate a repository test machine (switch changes, configured coil/show events) and record every command
+    reaching a platform driver.  A stimulus that makes the test machine raise ends that life; the machine is
+    booted again (up to 5 lives) and the walk continues."""
     mdir, cfgfile, seed = job
     rnd = random.Random(seed)
-    try:
-        h = harness.boot(None, machine_dir=mdir, config=cfgfile)
-    except Exception as ex:  # pylint: disable=broad-except
-        return [{'_skip': '%s/%s: %s' % (mdir, cfgfile, repr(ex)[:200])}]
-    traces = []
-    try:
-        m = h.machine
-        log = []
-        for coil in m.coils.values():
-            if coil.hw_driver is not None:
-                coil.hw_driver = RecDriver(coil.hw_driver, log, coil.name)
-        switches = list(m.switches.keys())
-        events = set()
-        for coil in m.coils.values():
-            for k in ('pulse_events', 'enable_events', 'disable_events'):
-                events.update((coil.config.get(k) or {}).keys())
-        for sec in ('coil_player', 'show_player', 'event_player'):
-            events.update((m.config.get(sec) or {}).keys())
-        for e in ('ball_search_enable', 'flipper_enable', 'game_start', 'ball_started'):
-            events.add(e)
-        events = [e for e in sorted(events) if isinstance(e, str) and '{' not in e and '|' not in e]
-        for _ in range(40):
-            try:
-                r = rnd.random()
-                if r < 0.55 and switches:
-                    s = rnd.choice(switches)
-                    m.switch_controller.process_switch(s, rnd.choice([0, 1]), logical=True)
-                elif r < 0.8 and events:
-                    m.events.post(rnd.choice(events))
-                h.advance_time_and_run(rnd.choice([0.0, 0.01, 0.1, 1.0, 3.0]))
-            except Exception:  # pylint: disable=broad-except
-                break
-        per = {}
-        for (n, cmd) in log:
-            per.setdefault(n, []).append({'op': 'cmd', 'c': cmd})
-        for n, ev in per.items():
-            traces.append({'cfg': coil_env(m.coils[n]), 'ev': ev[:400], '_coil': n, '_machine': '%s/%s' % (mdir, cfgfile)})
-    finally:
+    import time as _time
+    t_end = _time.time() + (10 if seed % 100 < 1 else 25)     # wall-clock budget per machine
+    per = {}
+    envs = {}
+    skips = []
+    for life in range(5):
+        if _time.time() > t_end:
+            break
         try:
-            harness.shutdown(h)
-        except Exception:  # pylint: disable=broad-except
-            pass
-    return traces
+            h = harness.boot(None, machine_dir=mdir, config=cfgfile)
+        except BaseException as ex:  # pylint: disable=broad-except
+            skips.append('%s/%s: %s' % (mdir, cfgfile, repr(ex)[:200]))
+            break
+        try:
+            m = h.machine
+            log = []
+            for coil in m.coils.values():
+                if coil.hw_driver is not None:
+                    coil.hw_driver = RecDriver(coil.hw_driver, log, coil.name)
+                    envs[coil.name] = coil_env(coil)
+            switches = list(m.switches.keys())
+            events = set()
+            for coil in m.coils.values():
+                for k in ('pulse_events', 'enable_events', 'disable_events'):
+                    events.update((coil.config.get(k) or {}).keys())
+            for sec in ('coil_player', 'show_player'):
+                events.update((m.config.get(sec) or {}).keys())
+            events = [e for e in sorted(events) if isinstance(e, str) and '{' not in e and '|' not in e]
+            for _ in range(40):
+                if _time.time() > t_end:
+                    break
+                try:
+                    r = rnd.random()
+                    if r < 0.6 and switches:
+                        m.switch_controller.process_switch(rnd.choice(switches), rnd.choice([0, 1]), logical=True)
+                    elif r < 0.85 and events:
+                        m.events.post(rnd.choice(events))
+                    h.advance_time_and_run(rnd.choice([0.0, 0.01, 0.1, 0.5, 1.0]))
+                except BaseException:  # this life is over  pylint: disable=broad-except
+                    break
+            for (n, cmd) in log:
+                per.setdefault(n, []).append({'op': 'cmd', 'c': cmd})
+        except BaseException as ex:  # pylint: disable=broad-except
+            skips.append('%s/%s: %s' % (mdir, cfgfile, repr(ex)[:200]))
+        finally:
+            try:
+                harness.shutdown(h)
+            except BaseException:  # pylint: disable=broad-except
+                pass
+    traces = [{'cfg': envs[n], 'ev': ev[:400], '_coil': n, '_machine': '%s/%s' % (mdir, cfgfile)} for n, ev in per.items()]
+    return traces + [{'_skip': x} for x in skips]
 
 
 def run(ctx):
@@ -313,7 +324,7 @@ def run(ctx):
     fuzz_jobs = [('/repo/mpf/tests/machine_files/' + d, f, ctx.seed * 100 + k)
                  for (d, f) in REPO_MACHINES for k in range(1 if ctx.quick else 6)
                  if os.path.exists('/repo/mpf/tests/machine_files/%s/config/%s' % (d, f))]
-    fres = harness.pmap(exec_fuzz, fuzz_jobs, chunk=1)
+    fres = harness.pmap(exec_fuzz, fuzz_jobs, chunk=1, item_timeout=45)
     ctx.log('device fuzz executed: %d machines' % len(fuzz_jobs))
     ftraces = [t for r_ in fres for t in r_ if '_skip' not in t]
     ctx.coverage['device_machines'] = sorted({t['_machine'] for t in ftraces})
